@@ -58,7 +58,7 @@ def make_episodes(configs, clauses_for, extra_conform=(), observe=None):
         if "r_fixed" not in obs:
             wanted = [w for w in wanted if w != "C12_FixedPoint"]
         if obs.get("solve_skipped"):
-            wanted = [w for w in wanted if w != "C17_solution"]
+            wanted = [w for w in wanted if w not in ("C17_solution", "C08_Solve")]
         conform = sorted((set(want) | set(extra_conform)) & CONFORMABLE & set(obs))
         eps.append({"id": k, "cfg": cfg, "obs": obs, "wanted": sorted(wanted), "conform": conform})
     return eps
@@ -103,7 +103,7 @@ def offsets_str(detail):
 
 def run_property(prop, tier, seed, *, clauses_for, n_quick, n_thorough, gen_kw=None, extra_conform=(),
                  design=None, rule="", assumptions=(), classes=None, extra_configs=(), sig_extra=None,
-                 chunk=25, observe=None, generator=None):
+                 chunk=25, observe=None, generator=None, vacuity_classes=True):
     """generic numeric-layer check: generate configurations (seeded), drive the real code,
     validate the lifted observations with FVTraceOps, report."""
     from findings import Report
@@ -119,7 +119,8 @@ def run_property(prop, tier, seed, *, clauses_for, n_quick, n_thorough, gen_kw=N
     per_class, per_clause, undecided = {}, {}, {}
     for e in episodes:
         cls = e["cfg"]["cls"]
-        per_class[cls] = per_class.get(cls, 0) + 1
+        lab = e["cfg"].get("label", cls)
+        per_class[lab] = per_class.get(lab, 0) + 1
         v = by_id[e["id"]]
         for cl in e["wanted"]:
             per_clause[cl] = per_clause.get(cl, 0) + 1
@@ -144,7 +145,7 @@ def run_property(prop, tier, seed, *, clauses_for, n_quick, n_thorough, gen_kw=N
         if n * 4 > per_clause.get(cl, 0):
             raise tlcrun.MachineryError(f"vacuity: clause {cl} undecided (32-bit overflow in TLC) in {n} of "
                                         f"{per_clause.get(cl, 0)} episodes")
-    missing = [c for c in (classes or drive.CLASSES) if not per_class.get(c)]
+    missing = [c for c in (classes or drive.CLASSES) if not per_class.get(c)] if vacuity_classes else []
     if missing:
         raise tlcrun.MachineryError(f"vacuity: no configuration for {missing}")
     distinct = {nontrivial_hash(e["cfg"]) for e in episodes
